@@ -284,27 +284,44 @@ def build_request(spec):
         effect = ("helper-set", "excludes" if v == "exclude" else "includes", "/usr/share/x")
         expect = {"valid": "ok", "exclude": "ok", "no-args": "fail", "unknown-option": "any"}[v]
     elif h == "filter_env":
-        opts = ["-v", "FOO"]
-        args = {"valid": ["env.in", "env.out"], "missing": ["nonexistent.in", "env.out"], "one-file": ["env.in"]}[v]
+        args = ["-v", "FOO"] + {"valid": ["env.in", "env.out"], "missing": ["nonexistent.in", "env.out"], "one-file": ["env.in"]}[v]
         effect = ("filtered", "env.out", b"BAR=2", b"FOO")
         expect = "ok" if v == "valid" else "fail"
     return {"cmd": h, "opts": " ".join(opts), "args": args, "env": env, "effect": effect, "expect": expect}
 
 
+def build_followup(spec):
+    """a plain valid request to the *same* helper instance, issued after the request under test (ipc sessions of the
+    helpers that keep per-instance installer state); None for the others"""
+    h = spec["helper"]
+    if spec["mode"] != "ipc":
+        return None
+    if h in IW:
+        two = build_request(dict(spec, variant="two", optmode="absent"))
+        rel2, src2, _ = two["effect"][1][1]
+        return {"cmd": h, "opts": f'--dest="{IW[h][1]}"', "args": [src2], "effect": ("files", [(rel2, src2, None)])}
+    if h in ("dodir", "keepdir"):
+        return {"cmd": h, "opts": "", "args": ["/var/f1"], "effect": ("dirs", [("var/f1", None)], h == "keepdir")}
+    if h == "dosym":
+        return {"cmd": h, "opts": "", "args": ["/t2", "/usr/bin/link2"], "effect": ("symlink", "usr/bin/link2", "/t2")}
+    if h == "dohard":
+        return {"cmd": h, "opts": "", "args": ["pre/file", "/pre/hard2"], "effect": ("hardlink", "pre/hard2", "pre/file")}
+    return None
+
+
 # ------------------------------------------------------------------ scratch world
 
 DRIVER = r"""#!/bin/bash
-# one session: request under test, then a sentinel request, then end of phase
+# one session: the requests listed in ${VERIF_SPEC} (NUL separated records: tag mode cmd opts nargs args...), each in
+# its own subshell like a helper process, then end of phase
 export PKGCORE_EBD_PATH
-mode=$1; export PKGCORE_NONFATAL=$2 EBUILD_PHASE=$3; cmd=$4; opts=$5; shift 5
-if [[ ${mode} != script ]]; then
-	source "${PKGCORE_EBD_PATH}"/exit-handling.bash || exit 97
-	source "${PKGCORE_EBD_PATH}"/ebuild-daemon-lib.bash || exit 97
-	source "${PKGCORE_EBD_PATH}"/isolated-functions.bash || exit 97
-	source "${PKGCORE_EBD_PATH}"/eapi/depend.bash >&2 || exit 97
-	source "${PKGCORE_EBD_PATH}"/eapi/common.bash >&2 || exit 97
-	source "${PKGCORE_EBD_PATH}"/eapi/0/phase.bash >&2 || exit 97
-fi
+export PKGCORE_NONFATAL=$1 EBUILD_PHASE=$2
+source "${PKGCORE_EBD_PATH}"/exit-handling.bash || exit 97
+source "${PKGCORE_EBD_PATH}"/ebuild-daemon-lib.bash || exit 97
+source "${PKGCORE_EBD_PATH}"/isolated-functions.bash || exit 97
+source "${PKGCORE_EBD_PATH}"/eapi/depend.bash >&2 || exit 97
+source "${PKGCORE_EBD_PATH}"/eapi/common.bash >&2 || exit 97
+source "${PKGCORE_EBD_PATH}"/eapi/0/phase.bash >&2 || exit 97
 cd "${VERIF_CWD}" || exit 98
 one() {
 	local tag=$1; shift
@@ -316,17 +333,23 @@ one() {
 	return 0
 }
 ipc_helper="${PKGCORE_EBD_PATH}/helpers/common/pkgcore-ipc-helper"
-case ${mode} in
-	script) one request "${ipc_helper}" "${PKGCORE_EBD_PATH}/helpers/0/src_install/${cmd}" "$@" ;;
-	fn) one request "${cmd}" "$@" ;;
-	*) one request __ebd_ipc_cmd "${cmd}" "${opts}" "$@" ;;
-esac || exit 0
-if [[ ${mode} == script ]]; then
-	DIROPTIONS= one sentinel "${ipc_helper}" "${PKGCORE_EBD_PATH}/helpers/0/src_install/dodir" /sentinel || exit 0
-	source "${PKGCORE_EBD_PATH}"/ebuild-daemon-lib.bash
-else
-	one sentinel __ebd_ipc_cmd dodir "" /sentinel || exit 0
-fi
+mapfile -d '' -t F < "${VERIF_SPEC}"
+i=0
+while (( i < ${#F[@]} )); do
+	tag=${F[i]} mode=${F[i+1]} cmd=${F[i+2]} opts=${F[i+3]} n=${F[i+4]}
+	args=( "${F[@]:i+5:n}" )
+	i=$(( i + 5 + n ))
+	case ${mode} in
+		script)
+			if [[ ${tag} == sentinel ]]; then
+				DIROPTIONS= one ${tag} "${ipc_helper}" "${PKGCORE_EBD_PATH}/helpers/0/src_install/${cmd}" "${args[@]}"
+			else
+				one ${tag} "${ipc_helper}" "${PKGCORE_EBD_PATH}/helpers/0/src_install/${cmd}" "${args[@]}"
+			fi ;;
+		fn) one ${tag} "${cmd}" "${args[@]}" ;;
+		*) one ${tag} __ebd_ipc_cmd "${cmd}" "${opts}" "${args[@]}" ;;
+	esac || exit 0
+done
 __ebd_write_line "phases succeeded"
 exit 0
 """
